@@ -10,14 +10,14 @@
    Python dicts are association lists with the dict update discipline: an existing key keeps its
    position and gets the new value, a new key is appended ([set]); lookups return the first binding.
 
-   NOT modelled (they enter as Section variables, the theorems hold for every instance):
-     tsub   : string.Template(v).safe_substitute(m)     (flowir.expand_vars)
-     osexp  : os.path.expandvars(v) under os.environ = m
+   Section variables of the environment model (the theorems about it hold for every instance):
+     tsub   : string.Template(v).safe_substitute(m)     (flowir.expand_vars)      [model: tm_sub]
+     osexp  : os.path.expandvars(v) under os.environ = m                        [model: os_expand]
      fillin : FlowIR.fill_in of one value (%(workflow-variable)s interpolation; its context is the
               global/platform variables and the environment)
-   The correspondence instantiates tsub and osexp with [subst] below (the common fragment of the two:
-   $NAME and ${NAME}, NAME an identifier, single pass, unknown names left as they are) and fillin with
-   the identity; the generator stays inside that fragment. *)
+   The correspondence instantiates tsub and osexp with the executable models [tm_sub] and [os_expand]
+   below (all of "$$", "$NAME", "${NAME}", malformed and unterminated references) and fillin with the
+   identity. *)
 From Coq Require Import String Ascii List Bool ZArith.
 Import ListNotations.
 Require Import V.Lib.PyStr.
@@ -237,53 +237,101 @@ Section Expansion.
     end.
 End Expansion.
 
-(* ------------------------------------------------------------------ concrete substitution used by the
-   correspondence: $NAME and ${NAME}; one left-to-right pass; unknown names are left untouched *)
+(* ------------------------------------------------------------------ executable models of the two
+   substitution functions (on byte strings; the harness generates ASCII):
+     tm_sub m s    = string.Template(s).safe_substitute(m)      (Lib/string.py, Python 3.12)
+     os_expand m s = posixpath.expandvars(s) under os.environ = m (Lib/posixpath.py, Python 3.12)
+   Both are one left-to-right pass that never rescans what it has substituted, so both are
+   "tokenise, then render each token": they differ in what may follow a "$".
+     Template  pattern: "$" then one of  "$"  |  ID  |  "{" ID "}"  |  nothing,  ID = [_a-z][_a-z0-9]* , IGNORECASE, ASCII
+               "$$" -> "$"; "$name" / "${name}" -> m[name], unchanged when m has no such key;
+               any other "$" stays and scanning resumes right after it.
+     expandvars pattern: "$" then one of  \w+  |  "{" [^}]* "}" , ASCII; "$word" (a word may start with a digit) and
+               "${anything without }}" -> environ[name], unchanged when not set; a "$" followed by
+               neither stays and scanning resumes right after it ("$$X" -> "$" + value of X). *)
 Definition is_lower_c (a : ascii) : bool := let n := nat_of_ascii a in Nat.leb 97 n && Nat.leb n 122.
 Definition id_start (a : ascii) : bool := is_upper a || is_lower_c a || Ascii.eqb a "_"%char.
-Definition id_char (a : ascii) : bool := id_start a || is_digit a.
+Definition id_char (a : ascii) : bool := id_start a || is_digit a.          (* \w under re.ASCII *)
 Definition is_ident (s : string) : bool :=
   match s with EmptyString => false | String a r => id_start a && all_chars id_char r end.
 
-Inductive smode := MLit | MDollar | MName (acc : string) | MBrace (acc : string).
+(* a token: one literal character, or a reference (the name looked up, and the text it was written as) *)
+Inductive tok := TChar (c : ascii) | TRef (name raw : string).
 
-Definition emit_name (m : map) (acc : string) : string :=
-  match lookup acc m with Some v => v | None => "$" ++ acc end.
-Definition emit_brace (m : map) (acc : string) : string :=
-  match (if is_ident acc then lookup acc m else None) with Some v => v | None => "${" ++ acc ++ "}" end.
+Definition render (m : map) (t : tok) : string :=
+  match t with
+  | TChar c => String c ""
+  | TRef n raw => match lookup n m with Some v => v | None => raw end
+  end.
+Fixpoint render_all (m : map) (ts : list tok) : string :=
+  match ts with [] => "" | t :: r => render m t ++ render_all m r end.
 
-Fixpoint subst_go (m : map) (md : smode) (s : string) : string :=
+(* longest prefix of characters satisfying p *)
+Fixpoint take_while (p : ascii -> bool) (s : string) : string :=
   match s with
-  | EmptyString =>
-      match md with
-      | MLit => ""
-      | MDollar => "$"
-      | MName acc => emit_name m acc
-      | MBrace acc => "${" ++ acc
-      end
+  | EmptyString => ""
+  | String c r => if p c then String c (take_while p r) else ""
+  end.
+
+(* the text before the first "}", None when there is no "}" *)
+Fixpoint upto_close (s : string) : option string :=
+  match s with
+  | EmptyString => None
+  | String c r => if Ascii.eqb c "}"%char then Some "" else option_map (String c) (upto_close r)
+  end.
+
+(* [look r]: what the text r after a "$" makes of that "$": a token and the number of characters of r
+   it consumes; None = the "$" is literal.  [skip] counts characters of a match still to be dropped. *)
+Fixpoint scan (look : string -> option (tok * nat)) (skip : nat) (s : string) : list tok :=
+  match s with
+  | EmptyString => []
   | String c r =>
-      match md with
-      | MLit => if Ascii.eqb c "$"%char then subst_go m MDollar r else String c (subst_go m MLit r)
-      | MDollar =>
-          if Ascii.eqb c "{"%char then subst_go m (MBrace "") r
-          else if id_start c then subst_go m (MName (String c "")) r
-          else if Ascii.eqb c "$"%char then "$" ++ subst_go m MDollar r
-          else String "$"%char (String c (subst_go m MLit r))
-      | MName acc =>
-          if id_char c then subst_go m (MName (acc ++ String c "")) r
-          else emit_name m acc ++
-               (if Ascii.eqb c "$"%char then subst_go m MDollar r else String c (subst_go m MLit r))
-      | MBrace acc =>
-          if Ascii.eqb c "}"%char then emit_brace m acc ++ subst_go m MLit r
-          else subst_go m (MBrace (acc ++ String c "")) r
+      match skip with
+      | S k => scan look k r
+      | O => if Ascii.eqb c "$"%char then
+               match look r with
+               | Some (t, n) => t :: scan look n r
+               | None => TChar "$"%char :: scan look 0 r
+               end
+             else TChar c :: scan look 0 r
       end
   end.
-Definition subst (m : map) (s : string) : string := subst_go m MLit s.
+
+Definition tm_look (r : string) : option (tok * nat) :=
+  match r with
+  | EmptyString => None
+  | String c r' =>
+      if Ascii.eqb c "$"%char then Some (TChar "$"%char, 1)
+      else if Ascii.eqb c "{"%char then
+        let name := take_while id_char r' in
+        if is_ident name && prefixb "}" (drop (String.length name) r')
+        then Some (TRef name ("${" ++ name ++ "}"), String.length name + 2) else None
+      else
+        let name := take_while id_char r in
+        if is_ident name then Some (TRef name ("$" ++ name), String.length name) else None
+  end.
+
+Definition os_look (r : string) : option (tok * nat) :=
+  match r with
+  | EmptyString => None
+  | String c r' =>
+      if Ascii.eqb c "{"%char then
+        match upto_close r' with
+        | Some name => Some (TRef name ("${" ++ name ++ "}"), String.length name + 2)
+        | None => None
+        end
+      else
+        let name := take_while id_char r in
+        if String.eqb name "" then None else Some (TRef name ("$" ++ name), String.length name)
+  end.
+
+Definition tm_sub (m : map) (s : string) : string := render_all m (scan tm_look 0 s).
+Definition os_expand (m : map) (s : string) : string := render_all m (scan os_look 0 s).
 
 Definition id_fill (s : string) : string := s.
 
-Definition env_for_node_c := env_for_node subst subst id_fill.
-Definition env_with_name_c := env_with_name subst subst.
+Definition env_for_node_c := env_for_node tm_sub os_expand id_fill.
+Definition env_with_name_c := env_with_name tm_sub os_expand.
 
 (* ------------------------------------------------------------------ comparison with the implementation *)
 Fixpoint sub_map (a b : map) : bool :=
@@ -315,3 +363,8 @@ Definition check_lower (k : envtab * list (string * list string)) : bool :=
   forallb (fun ne => match lookup (fst ne) out with
                      | Some ks => if list_eq_dec string_dec ks (snd ne) then true else false
                      | None => false end) m.
+
+(* the two substitution functions alone: (mapping, text, (flowir.expand_vars(text, mapping),
+   os.path.expandvars(text) under os.environ = mapping)) *)
+Definition check_subst (k : map * string * (string * string)) : bool :=
+  let '(m, s, (t, o)) := k in String.eqb (tm_sub m s) t && String.eqb (os_expand m s) o.
